@@ -469,8 +469,21 @@ class AsyncSuite(ExecSuite):
                  ["--count", n, "--seed", s], {})]
 
 
+class PoolSuite(PipeSuite):
+    """S8: few, timing-sensitive cases: run in 2 shards only so that the pools are not starved by the suite itself"""
+    name = "pool"
+
+    def gens(self, tier, seed, sspec):
+        s = str(seed)
+        if tier == "thorough":
+            return [("widths 2..16 x {user pool = width, user pool 16, default pool, batch-inner, async} x 25 dispatches", ["--gen", "all", "--count", "25", "--seed", s], {"shards": 2})]
+        if tier == "quick":
+            return [("widths 2..16 x {user pool = width, user pool 16, default pool, batch-inner, async} x 3 dispatches", ["--gen", "all", "--count", "3", "--seed", s], {"shards": 2})]
+        return [("search: widths 2,3,5 x all configurations x 6 dispatches", ["--gen", "small", "--count", "6", "--seed", s], {"shards": 2})]
+
+
 SUITES = {"plan": PlanSuite(), "exec": ExecSuite(), "world": WorldSuite(), "sysdata": SysdataSuite(), "meta": MetaSuite(),
-          "parseq": ParseqSuite(), "async": AsyncSuite()}
+          "parseq": ParseqSuite(), "async": AsyncSuite(), "pool": PoolSuite()}
 
 
 # ----------------------------------------------------------------------------------------
